@@ -43,6 +43,46 @@ K_CR = 'report:name-with-carriage-return:split-into-two-names'
 K_UXS = 'child-report:unexpected-success-entry:TypeError-in-report'
 
 
+def _real_run_tests_appends_bare_entries():
+    """Probe the REAL runner.run_tests: does an unexpected success end up in `failures` as a bare test object
+    (the defect behind K_UXS) or as a (test, exc_info) pair?  The bare-entry cases below model what run_tests
+    hands to SubProcess.report(); they are only meaningful while the real code still produces such entries."""
+    import io
+    import types
+    import unittest
+    from zope.testrunner import runner as _r
+
+    class _Out:
+        def __getattr__(self, name):
+            return lambda *a, **k: None
+
+    class _T(unittest.TestCase):
+        @unittest.expectedFailure
+        def test_ux(self):
+            pass
+
+    opts = types.SimpleNamespace(repeat=1, output=_Out(), report_refcounts=False, verbose=0, progress=False,
+                                 post_mortem=False, buffer=False, stop_on_error=False, resume_layer=None,
+                                 gc_after_test=False, ignore_new_threads=[])
+    failures, errors, skipped = [], [], []
+    try:
+        _r.run_tests(opts, unittest.defaultTestLoader.loadTestsFromTestCase(_T), 'zope.testrunner.layer.UnitTests',
+                     failures, errors, skipped, [])
+    except Exception:
+        return True            # cannot tell: keep the cases
+    return any(not isinstance(f, tuple) for f in failures)
+
+
+_BARE = None
+
+
+def _bare_possible():
+    global _BARE
+    if _BARE is None:
+        _BARE = _real_run_tests_appends_bare_entries()
+    return _BARE
+
+
 # --------------------------------------------------------------------------
 # helpers on the input side (features of a case)
 # --------------------------------------------------------------------------
@@ -410,7 +450,8 @@ def gen_canonical():
     yield base(ran=1, fails=[NAMES[0]], pre='abc', canon=1)
     yield base(ran=3, pre='1', canon=1)
     yield base(ran=1, fails=['a\rb'], canon=1)
-    yield base('roundtrip', ran=1, bare_fails=['ux (m.T.ux)'], canon=1)
+    if _bare_possible():
+        yield base('roundtrip', ran=1, bare_fails=['ux (m.T.ux)'], canon=1)
 
 
 def gen_enumerated(tier):
@@ -487,9 +528,10 @@ def gen_enumerated(tier):
                        processes=procs)
             yield base('roundtrip', ran=2, fails=[n], errs=[],
                        pre='warning: x\n', processes=procs)
-    yield base('roundtrip', ran=1, fails=[], errs=[], bare_fails=['ux (m.T.ux)'])
-    yield base('roundtrip', ran=3, fails=['f1'], errs=['e1'],
-               bare_fails=['ux (m.T.ux)'])
+    if _bare_possible():
+        yield base('roundtrip', ran=1, fails=[], errs=[], bare_fails=['ux (m.T.ux)'])
+        yield base('roundtrip', ran=3, fails=['f1'], errs=['e1'],
+                   bare_fails=['ux (m.T.ux)'])
     yield base('roundtrip', ran=1, fails=['a\rb'], errs=[])
     yield base('roundtrip', ran=1, fails=['a\r\nb'], errs=['c'])
     yield base('roundtrip', ran=1, fails=['one'], errs=[], pre='0 0 0\n')
